@@ -107,7 +107,7 @@ def check(repo: Repo, rep: Report) -> None:
                     c["n"] += 1
                     try:
                         got = S.evaluate(val, n)
-                    except S.Raised as r:
+                    except (S.Raised,) + S._PY_ERRORS as r:
                         got = f"raises {r}"
                     want = list(range(n))[start:stop:step]
                     if got != want and c["bad"] is None:
@@ -138,7 +138,7 @@ def check(repo: Repo, rep: Report) -> None:
                     want = [xs[k]] if -n <= k < n else []
                     try:
                         got = S.evaluate(p, n)
-                    except S.Raised as r:
+                    except (S.Raised,) + S._PY_ERRORS as r:
                         got = f"raises {r}"
                     if got != want:
                         bad = (f"source[{k}] becomes slice({start}, {stop}, {step}) = {p.ops!r}: on {n} elements it selects "
